@@ -57,8 +57,23 @@ fn check_value_shift(st: &mut St<X>, c: &[u8]) {
     let mut cur = w.clone();
     st.rep.evaluations += 1;
     st.x.value_checks[c.len()] += 1;
+    let mut midx: Vec<u8> = c.to_vec();
     for k in 1..=3 {
         cur = crate_shift(&cur);
+        // the shifted hand must hold exactly the card-wise shifted cards (slot-wise clause, on every hand of this pass)
+        for x in midx.iter_mut() {
+            *x = mshift(*x);
+        }
+        if cur.iter().zip(midx.iter()).any(|(&w, &i)| w != model::word(i)) {
+            st.rep.violation(
+                "shifting a hand shifts the card in every slot",
+                &format!("{}::shift_suit", ["", "", "", "", "", "Five", "Six", "Seven"][c.len()]),
+                Input::Idx(c.to_vec()),
+                format!("{:08X?} after {} shift(s)", midx.iter().map(|&i| model::word(i)).collect::<Vec<u32>>(), k),
+                format!("{:08X?}", cur),
+            );
+            return;
+        }
         let v = crate_value(&cur);
         st.rep.evaluations += 2;
         if v != v0 {
